@@ -91,7 +91,7 @@ var props = []PropSpec{
 					c.InstrBudget = 2_000_000
 					c.AllocLimit = 200_000
 				},
-				Bounds: "every byte of the packet symbolic (header, set header, body); packet length 0..20+B with B = 12 (quick) / 16 (thorough; 12 for multi-field layouts) for fixed-width templates and 6 / 7 for templates with a variable-length field; templates: zero fields, each of 14 single-field shapes (incl. unknown elements of length 0, 3, variable), 11 (quick) / 36 pairs + 27 triples (thorough) multi-field layouts; x 3 decoding modes"},
+				Bounds: "every byte of the packet symbolic (header, set header, body); packet length 0..20+B with B = 12 (quick) / 14 (thorough; 12 for multi-field layouts) for fixed-width templates and 6 / 7 for templates with a variable-length field; templates: zero fields, each of 14 single-field shapes (incl. unknown elements of length 0, 3, variable), 11 (quick) / 36 pairs + 27 triples (thorough) multi-field layouts; x 3 decoding modes"},
 			{Func: "Check_TemplatePacket", Reach: []string{"error", "message", "zero-fields", "one-field", "several-fields", "invalidated-or-other-key"},
 				Tune: func(c *sym.Config, th bool) {
 					c.HangIsViolation = true
